@@ -303,7 +303,11 @@ func (s *vDMState) apply(ev vDMEvent) bool {
 		s.hostOK = false
 		return step()
 	case evDp, evDm:
-		c := s.g.Pending(vKDeploy)
+		c := s.g.WaitPending(vKDeploy, vStepTimeout)
+		if c == nil {
+			s.note("%s: no deploy in flight", ev)
+			return false
+		}
 		var err error
 		if ev == evDm {
 			err = errScripted
@@ -312,12 +316,20 @@ func (s *vDMState) apply(ev vDMEvent) bool {
 		s.g.WaitEnded(c, vStepTimeout)
 		return step()
 	case evTp:
-		c := s.g.Pending(vKTeardown)
+		c := s.g.WaitPending(vKTeardown, vStepTimeout)
+		if c == nil {
+			s.note("T+: no teardown in flight")
+			return false
+		}
 		s.g.Release(c, nil, nil)
 		s.g.WaitEnded(c, vStepTimeout)
 		return step()
 	case evT1:
-		c := s.g.Pending(vKTeardown)
+		c := s.g.WaitPending(vKTeardown, vStepTimeout)
+		if c == nil {
+			s.note("T1: no teardown in flight")
+			return false
+		}
 		s.g.Release(c, nil, errScripted)
 		s.g.WaitEnded(c, vStepTimeout)
 		c2 := s.g.WaitPending(vKTeardown, vStepTimeout) // retry after the back-off delay
@@ -621,7 +633,7 @@ func TestVerif_C14(t *testing.T) {
 		"all enabled sequences over {manifest update, lease closed, hostnames reserved/refused, deploy ok/error, teardown ok/fails-once, shutdown} up to a length bound, each executed on a fresh real deploymentManager whose loop is stepped one message at a time (loop-top hook) against scripted Deploy/TeardownLease/hostname calls; the call log (logical stamps) is judged: no overlapping cluster operations, no deploy after teardown was requested, closed lease torn down after the last deploy and hostnames released, last deploy carries the latest manifest; plus free-running randomized schedules (under -race in the race stage). distinct = event sequences")
 	res.Assume("the scripted cluster client, hostname service and chain client are the environment; stepping makes exactly one loop input ready at a time, simultaneous readiness is only sampled by the free-running runs")
 	if vs.Stage() == "" && vs.ReplayFile() == "" {
-		for _, f := range []string{"sequences", "seq_with_close", "seq_with_close_before_hostnames", "seq_with_update_during_deploy", "seq_with_failed_deploy", "seq_with_shutdown", "seq_teardown_retry"} {
+		for _, f := range []string{"sequences", "seq_with_close", "seq_with_close_before_hostnames", "seq_with_update_during_deploy", "seq_with_failed_deploy", "seq_with_shutdown", "seq_teardown_retry", "service_level_scenarios"} {
 			res.Floor(f, 1)
 		}
 	}
@@ -709,6 +721,7 @@ func TestVerif_C14(t *testing.T) {
 	res.Extra("enumeration", fmt.Sprintf("all enabled sequences of length 1..%d: %d (complete, except that the teardown-fails-once branch T1 is followed for the first 40 occurrences only)", maxLen, len(seqs)))
 	vs.Parallel(len(seqs), runtime.NumCPU(), func(i int) { judge(seqs[i], "enum") })
 	vDMFreeRuns(res, vs.Scale(200, 5000))
+	vDMServiceRuns(res)
 }
 
 func vClusterHook(point string, args ...interface{}) {
